@@ -340,13 +340,31 @@ theorem int_to_float_exact (i : Int) (h : i.natAbs < FVal.pow2 53) :
 
 /-- float `+` agrees with integer `+` on integral operands: for integers p, q with |p|, |q|, |p+q| < 2^53
     the IEEE sum of their float images is the float image of the integer sum (no rounding occurs).
-    (`-` and `*` on integral operands are validated by the correspondence stream `c06.arith` and the
-    implementation law `float_int_agree`; their exactness theorems are not proved here.) -/
+    (`-` and `*`: `float_int_sub_agree`, `float_int_mul_agree` below.) -/
 theorem float_int_add_agree (p q : Int) (hp : p.natAbs < FVal.pow2 53) (hq : q.natAbs < FVal.pow2 53)
     (hr : (p + q).natAbs < FVal.pow2 53) :
     calcFloat FVal.ieee .add (FVal.ofInt p) (FVal.ofInt q) = FVal.ofInt (p + q) := by
   rw [FVal.ofInt_exact p hp, FVal.ofInt_exact q hq, FVal.ofInt_exact (p + q) hr]
   exact FVal.add_int_exact p q hr
+
+theorem float_int_sub_agree (p q : Int) (hp : p.natAbs < FVal.pow2 53) (hq : q.natAbs < FVal.pow2 53)
+    (hr : (p - q).natAbs < FVal.pow2 53) :
+    calcFloat FVal.ieee .sub (FVal.ofInt p) (FVal.ofInt q) = FVal.ofInt (p - q) := by
+  rw [FVal.ofInt_exact p hp, FVal.ofInt_exact q hq, FVal.ofInt_exact (p - q) hr]
+  simp only [calcFloat, FVal.ieee]
+  exact FVal.sub_int_exact p q hr
+
+/-- `*`: exact whenever the product is non-zero (a zero product is +0 or -0 in float arithmetic: the sign of
+    zero is the one place where the two arithmetics cannot agree, and `=` does not distinguish them) -/
+theorem float_int_mul_agree (p q : Int) (hp : p.natAbs < FVal.pow2 53) (hq : q.natAbs < FVal.pow2 53)
+    (h0 : p * q ≠ 0) (hr : (p * q).natAbs < FVal.pow2 53) :
+    calcFloat FVal.ieee .mul (FVal.ofInt p) (FVal.ofInt q) = FVal.ofInt (p * q) := by
+  rw [FVal.ofInt_exact p hp, FVal.ofInt_exact q hq, FVal.ofInt_exact (p * q) hr]
+  simp only [calcFloat, FVal.ieee]
+  exact FVal.mul_int_exact p q h0 hr
+
+example : (3 : Int).natAbs < FVal.pow2 53 ∧ ((3 : Int) * 5) ≠ 0 :=
+  ⟨Nat.lt_of_lt_of_le (by decide : (3 : Int).natAbs < 2 ^ 2) (Nat.pow_le_pow_right (by decide) (by decide)), by decide⟩
 
 /-! ## casting functions -/
 
